@@ -226,6 +226,13 @@ fn check(prop: &str, tier: &str, threads: usize, cap: f64) -> String {
         all_samples.splice(0..0, e.samples.iter().cloned());
         let _ = write!(o, "\"x_special\":{},\"x_special_executions\":{},", jstr(&e.note), e.executions);
     }
+    if std::env::var("SX_PER_SCENARIO").is_ok() {
+        let mut v: Vec<(u64, &str)> = st.per_cfg.iter().enumerate().map(|(i, n)| (*n, cfgs[i].name.as_str())).collect();
+        v.sort_by(|a, b| b.0.cmp(&a.0));
+        for (n, name) in v.iter().take(25) {
+            eprintln!("PER-SCENARIO {:>10} {}", n, name);
+        }
+    }
     let _ = write!(o, "\"scenario_names\":{},", jlist(&names));
     let samples: Vec<String> = all_samples.iter().map(|s| jlist(s)).collect();
     let _ = write!(o, "\"samples\":[{}],", samples.join(","));
